@@ -105,6 +105,9 @@ pub fn vf_parse_u32<'a>(i: &'a [u8]) -> (r: IResult<&'a [u8], u32>)
     ensures fixed_post(i, r, 4), r is Ok ==> r->Ok_0.1 == be32(i@, 0),
 { unimplemented!() }
 
+// R11: `usize::from(x)` for x: u16 (lossless widening)
+pub fn vf_usize_from(x: u16) -> (r: usize) ensures r == x as usize { x as usize }
+
 // `<Vec<u8>>::parse_be` == many0(complete(be_u8)): takes every remaining byte, never fails
 #[verifier::external_body]
 pub fn vf_parse_vec_u8<'a>(i: &'a [u8]) -> (r: IResult<&'a [u8], Vec<u8>>)
@@ -127,9 +130,26 @@ pub assume_specification [<Ipv4Addr as From<u32>>::from] (x: u32) -> (r: Ipv4Add
     ensures r == ipv4_of(x);
 
 // ---- combinators ---------------------------------------------------------------------
+pub trait VfCount: Sized { spec fn vf_count(self) -> int; }
+impl VfCount for u8 { open spec fn vf_count(self) -> int { self as int } }
+impl VfCount for u16 { open spec fn vf_count(self) -> int { self as int } }
+impl VfCount for u32 { open spec fn vf_count(self) -> int { self as int } }
+impl VfCount for usize { open spec fn vf_count(self) -> int { self as int } }
+
 pub mod nom_c {
     use vstd::prelude::*;
     use super::*;
+
+    /// nom::bytes::complete::take(n): the first n bytes, or a recoverable Error when fewer are present
+    #[verifier::external_body]
+    pub fn take<'a, C: VfCount>(count: C) -> (h: impl Fn(&'a [u8]) -> IResult<&'a [u8], &'a [u8]>)
+        ensures
+            forall|i: &'a [u8]| h.requires((i,)),
+            forall|i: &'a [u8], r: IResult<&'a [u8], &'a [u8]>| #[trigger] h.ensures((i,), r) ==>
+                if i@.len() < count.vf_count() { r is Err && r->Err_0 is Error } else {
+                    r is Ok && r->Ok_0.1@ == i@.subrange(0, count.vf_count())
+                    && r->Ok_0.0@ == i@.subrange(count.vf_count(), i@.len() as int) },
+    { move |i| { unimplemented!() } }
 
     /// nom::combinator::map(parser, f)
     #[verifier::external_body]
@@ -177,7 +197,7 @@ pub mod nom_c {
                                 && ins[0] == i && ins[n as int] == r->Ok_0.0)
                 && (r is Err ==> exists|ins: Seq<&'a [u8]>, vals: Seq<O>, k: int, e: nom::Err<nom::error::Error<&'a [u8]>>|
                                 0 <= k < n && #[trigger] count_ok(f, k, ins, vals) && ins[0] == i
-                                && #[trigger] f.ensures((ins[k],), Err(e)))),
+                                && #[trigger] f.ensures((ins[k],), Err(e)) && (e is Error <==> r->Err_0 is Error))),
     { move |i| { unimplemented!() } }
 
     /// nom::combinator::complete(f): f, with Incomplete turned into an Error
